@@ -91,6 +91,7 @@ class GlobalsStage:
         import os
         mism = []
         found = []
+        caches = []
         repo = core.REPO
         for rel in ["src/lib.rs", "src/platform.rs", "src/join.rs", "src/io.rs", "src/hazmat.rs", "src/traits.rs", "src/guts.rs", "src/portable.rs",
                     "src/ffi_sse2.rs", "src/ffi_sse41.rs", "src/ffi_avx2.rs", "src/ffi_avx512.rs", "src/rust_sse2.rs", "src/rust_sse41.rs", "src/rust_avx2.rs"]:
@@ -101,11 +102,18 @@ class GlobalsStage:
             # cfg(blake3_team_blake3_verif) blocks are the verification hooks themselves
             text = re.sub(r"#\[cfg\(blake3_team_blake3_verif\)\]\s*(pub\s+)?(mod|static|fn|impl|enum)[^\n]*\{.*?\n\}\n", "", text, flags=re.S)
             text = re.sub(r"#\[cfg\(blake3_team_blake3_verif\)\]\s*static[^;]*;", "", text, flags=re.S)
-            for m in re.finditer(r"^\s*(pub\s+)?(static\s+mut\s+\w+|static\s+\w+\s*:\s*[^=;]*(Atomic|Mutex|Cell|Once|Lazy)[^=;]*|thread_local!)", text, flags=re.M):
+            # drop everything from the first verification-hook item to the end of its block (hooks are add-only, at the
+            # end of items) - simpler and stricter: remove lines between a cfg(blake3_team_blake3_verif) attribute and the
+            # closing brace at column 0
+            text = re.sub(r"#\[cfg\(blake3_team_blake3_verif\)\][^\n]*\n(?:.*\n)*?\}\n", "", text)
+            for m in re.finditer(r"^\s*(pub\s+)?(static\s+mut\s+\w+|static\s+\w+\s*:\s*[^=;]*(Atomic|Mutex|Cell|Once|Lazy)[^=;]*|(std::)?thread_local!)", text, flags=re.M):
                 found.append(f"{rel}: {m.group(0).strip()[:80]}")
+            self_caches = re.findall(r"cpufeatures::new!\((\w+)", text)
+            for c in self_caches:
+                caches.append(f"{rel}: cpufeatures::new!({c}, ...)  [detection cache]")
         ok, exe, _ = core.build_c()
         cobjs = []
-        bdir = os.path.join(core.C_DIR, "build")
+        bdir = os.path.join(core.C_DIR, "build", "obj")
         for o in ["blake3.o", "blake3_dispatch.o", "blake3_portable.o"]:
             p = os.path.join(bdir, o)
             if os.path.exists(p):
@@ -119,8 +127,8 @@ class GlobalsStage:
         if bad:
             mism.append(dict(kind="impl-vs-spec", impl_name="globals", ops=[], impl_differs=True,
                              note="writable shared state other than the feature-detection cache", found=bad))
-        return dict(evaluations=len(found) + len(cobjs) + 1, distinct={"scan"}, hist={"rust-statics": len(found), "c-writable-symbols": len(cobjs)},
-                    samples=[cobjs[:5]], mismatches=mism)
+        return dict(evaluations=len(found) + len(cobjs) + 1, distinct={"scan"}, hist={"rust-statics-outside-detection": len(found), "rust-detection-caches": len(caches), "c-writable-symbols": len(cobjs)},
+                    samples=[cobjs[:5] + caches[:5]], mismatches=mism)
 
 
 def stages(tier, seed, witness_search=False):
